@@ -108,3 +108,17 @@ where
         })
         .boxed()
 }
+
+/// libFuzzer inputs: the bytes are the entropy tape (little-endian u32 words, at most `max`).
+pub fn words_from_bytes(data: &[u8], max: usize) -> Vec<u32> {
+    let mut tape: Vec<u32> = data
+        .chunks(4)
+        .map(|c| {
+            let mut b = [0u8; 4];
+            b[..c.len()].copy_from_slice(c);
+            u32::from_le_bytes(b)
+        })
+        .collect();
+    tape.truncate(max);
+    tape
+}
